@@ -118,7 +118,10 @@ func (f *Filter) Filter(query *linear.Seq, selfAlign, complement bool, morass *m
 		return err
 	}
 
-	diagFrom := f.diagIndex(f.target.Len()-1, last) - tubeWidth
+	// Tubes below the overlap of the lowest active diagonal have been
+	// retired; flushing further down would address slots of the circular
+	// list that belong to active tubes at the top of the range.
+	diagFrom := f.diagIndex(f.target.Len()-1, last) - f.maxError
 	diagTo := f.diagIndex(0, last) + tubeWidth
 
 	tubeFrom := f.tubeIndex(diagFrom)
